@@ -1,8 +1,18 @@
 #!/bin/bash
-# tools/try_seeded.sh <seeded-name> <property> [extra check args]: apply a stored seeded change to /repo, run the check, undo.
+# tools/try_seeded.sh <seeded-name> <property> [extra check args]
+# Run a property's check against a stored seeded change WITHOUT touching /repo or /verif/evidence: the change is applied in a scratch
+# worktree of /repo's HEAD, the library is built from there into build/try_<variant>, and the check writes to a scratch VERIF_DIR.
+# (Equivalent to `git -C /repo apply`, `./check`, `git -C /repo checkout -- .`, but safe while background runs use /repo.)
 name="$1"; prop="$2"; shift 2
-cd /repo || exit 2
-git diff --quiet || { echo "/repo has uncommitted changes"; exit 2; }
-git apply /verif/seeded/$name/patch.diff || { echo "patch does not apply"; exit 2; }
-cd /verif; ./check "$prop" "$@" 2>/dev/null | grep -E "^VIOLATION|^KNOWN|class=|^vsim:.*runs \(" | cut -c1-260 | head -12
-git -C /repo checkout -- .
+wt=/tmp/wt_try_$$; vd=/tmp/vd_try_$$
+git -C /repo worktree add --detach "$wt" HEAD > /dev/null 2>&1 || { echo "cannot create worktree"; exit 2; }
+cleanup() { git -C /repo worktree remove --force "$wt" > /dev/null 2>&1; rm -rf "$vd"; }
+trap cleanup EXIT
+git -C "$wt" apply /verif/seeded/$name/patch.diff || { echo "patch does not apply"; exit 2; }
+mkdir -p "$vd/findings"; cp /verif/findings/known_findings.txt "$vd/findings/"
+cd /verif
+variants="asan"; [ "$prop" = "C20" ] && variants="asan tsan"
+for v in $variants; do
+  python3 tools/gen_build.py $v --repo "$wt" --out /verif/build/try_$v > /dev/null 2>&1 || { echo "build failed ($v)"; exit 2; }
+  VERIF_DIR="$vd" build/try_$v/vsim check "$prop" "$@" 2>/dev/null | grep -E "^VIOLATION|^KNOWN|class=|^vsim:.*runs \(" | sed "s|$vd|<scratch>|" | cut -c1-260 | head -12
+done
